@@ -116,8 +116,15 @@ def main():
     elif a[0] == 'import':
         cmd_import(a[1], a[2])
     elif a[0] == 'check':
-        for i in (ids() if a[1] == 'all' else [a[1]]):
-            cmd_check(i, '--suite' in a)
+        todo = ids() if a[1] == 'all' else [a[1]]
+        if len(todo) > 1 and '--suite' not in a:
+            import multiprocessing as mp
+            jobs = int(a[a.index('--jobs') + 1]) if '--jobs' in a else 8
+            with mp.get_context('fork').Pool(jobs) as pool:
+                pool.map(cmd_check, todo, chunksize=1)
+        else:
+            for i in todo:
+                cmd_check(i, '--suite' in a)
     elif a[0] == 'table':
         cmd_table()
 
